@@ -150,7 +150,12 @@ fn emit_go(rng: &mut Rng, case: &mut Case, class: u8, allow_infinite: bool) {
         // fixed move time
         let polls = if rng.chance(1, 4) { rng.below(4) } else { rng.log_uniform(1, 6_000) };
         let mt = if rng.chance(1, 6) { rng.below(7) } else { movetime_for(case, polls) };
-        case.raw(format!("go movetime {}", mt));
+        // one in five also carries a depth limit that cannot be reached in that time: the time still binds
+        match rng.below(10) {
+            0 => case.raw(format!("go depth {} movetime {}", rng.range(30, 64), mt)),
+            1 => case.raw(format!("go movetime {} depth {}", mt, rng.range(30, 64))),
+            _ => case.raw(format!("go movetime {}", mt)),
+        }
         if ping {
             case.raw("isready");
         }
@@ -164,7 +169,11 @@ fn emit_go(rng: &mut Rng, case: &mut Case, class: u8, allow_infinite: bool) {
         let inc = (want + 155).saturating_sub(base);
         let opp = rng.log_uniform(1, 3_600_000);
         let opp_inc = if rng.chance(1, 2) { 0 } else { rng.log_uniform(1, 30_000) };
-        case.push(GK::GoClock { own, own_inc: inc, opp, opp_inc });
+        if rng.chance(1, 5) {
+            case.push(GK::GoClockDepth { own, own_inc: inc, opp, opp_inc, depth: rng.range(30, 64) as u32 });
+        } else {
+            case.push(GK::GoClock { own, own_inc: inc, opp, opp_inc });
+        }
         if ping {
             case.raw("isready");
         }
@@ -1142,7 +1151,24 @@ pub fn gen_c13_extreme(seed: u64) -> Case {
     case.params.policy = Policy::Np;
     case.params.node_cost = 1_000_000;
     case.params.fair = 8;
-    let big: [u64; 10] = [u32::MAX as u64 - 1, u32::MAX as u64, u32::MAX as u64 + 1, 1 << 53, (1 << 53) + 1, i64::MAX as u64, i64::MAX as u64 + 1, u64::MAX / 50, u64::MAX - 1, u64::MAX];
+    let big: [u64; 16] = [
+        i32::MAX as u64 - 1,
+        i32::MAX as u64,
+        i32::MAX as u64 + 1,
+        2_592_000_000,
+        u32::MAX as u64 - 1,
+        u32::MAX as u64,
+        u32::MAX as u64 + 1,
+        1 << 53,
+        (1 << 53) + 1,
+        i64::MAX as u64,
+        i64::MAX as u64 + 1,
+        u64::MAX / 50,
+        u64::MAX - 1,
+        u64::MAX,
+        65_535,
+        65_536,
+    ];
     let val = |rng: &mut Rng| -> u64 {
         match rng.below(3) {
             0 => *rng.pick(&big),
@@ -1153,6 +1179,27 @@ pub fn gen_c13_extreme(seed: u64) -> Case {
     let r = *rng.pick(&["startpos", "sicilian-b", "rook-endgame", "castle-only-b"]);
     let root = ROOTS.iter().find(|x| x.name == r).unwrap();
     case.push(GK::NewGame { root: root_cmd(root), pre: vec![] });
+    if rng.chance(1, 2) {
+        // huge values on the other side's clock or on an increment only: the own clock is small and binds, so the
+        // answer must come by itself within it - nobody sends `stop`
+        case.family = "extreme-values/own-clock-small".into();
+        case.params.node_cost = 100_000;
+        case.params.max_polls = 60_000;
+        case.params.max_steps = 300_000;
+        for _ in 0..rng.range(1, 2) {
+            case.push(GK::PosCur);
+            let own = rng.log_uniform(1, 3_000);
+            let own_inc = if rng.chance(1, 4) { *rng.pick(&big) } else { rng.log_uniform(1, 200) };
+            let opp = if rng.chance(3, 4) { *rng.pick(&big) } else { rng.log_uniform(1, 3_600_000) };
+            let opp_inc = if rng.chance(1, 2) { *rng.pick(&big) } else { 0 };
+            case.push(GK::GoClock { own, own_inc, opp, opp_inc });
+            case.push(GK::AwaitBest);
+        }
+        case.raw("isready");
+        case.push(GK::AwaitReady);
+        case.raw("quit");
+        return case;
+    }
     for _ in 0..rng.range(1, 3) {
         case.push(GK::PosCur);
         if rng.chance(1, 3) {
@@ -1388,7 +1435,51 @@ pub fn gen_c15(seed: u64, thorough: bool) -> Case {
     let mut rng = Rng::new(seed, 0x15);
     let fam = seed % 8;
     let tiny = ["KvK", "KvK-b", "KPK", "KRK", "KQK", "KBNK", "knights-tour", "pawn-wall", "minor-endgame", "fortress", "fortress-b"];
-    if fam <= 3 {
+    if seed % 16 == 3 {
+        // one `position`, then very many `go`s without a new `position` in between, most of them aborted after a few
+        // polls (by `stop` or by a tiny time budget): whatever an aborted search leaves behind in state that survives
+        // the command - the game record, its state stack, per-session buffers - accumulates over the session.
+        // (The pinned engine refuses every `go` after the first with an error; an engine that keeps the position
+        // answers each of them.)
+        let mut case = Case::new("C15", "session-many-gos-on-one-position", seed, Mode::Session);
+        swarm_params(&mut rng, &mut case);
+        case.params.node_cost = 100_000;
+        case.params.oversleep_max = 0;
+        case.params.max_polls = 400_000;
+        case.params.max_steps = 2_000_000;
+        let nm = *rng.pick(&["fortress", "fortress-b", "pawn-wall", "startpos", "italian", "rook-endgame", "kiwipete", "minor-endgame"]);
+        let r = ROOTS.iter().find(|x| x.name == nm).unwrap();
+        let n0 = rng.below(30);
+        let pre = walk(&mut rng, &root_cmd(r), n0);
+        case.push(GK::NewGame { root: root_cmd(r), pre });
+        case.push(GK::PosCur);
+        let resend = rng.chance(1, 4);
+        for _ in 0..rng.range(60, if thorough { 400 } else { 140 }) {
+            if resend {
+                case.push(GK::PosCur);
+            }
+            match rng.below(3) {
+                0 => {
+                    case.raw(format!("go movetime {}", rng.range(6, 9)));
+                }
+                1 => {
+                    case.raw("go infinite");
+                    case.push(GK::AfterPolls(rng.range(1, 60)));
+                    case.raw("stop");
+                }
+                _ => {
+                    case.raw(format!("go depth {}", rng.range(4, 9)));
+                    case.push(GK::AfterPolls(rng.range(1, 60)));
+                    case.raw("stop");
+                }
+            }
+            case.push(GK::AwaitBest);
+        }
+        case.raw("isready");
+        case.push(GK::AwaitReady);
+        case.raw("quit");
+        case
+    } else if fam <= 3 {
         // long games through `position ... moves ...`, then a search left running
         let mut case = Case::new("C15", "session-long-game-then-search", seed, Mode::Session);
         swarm_params(&mut rng, &mut case);
@@ -1540,6 +1631,104 @@ pub fn gen_many_roots(prop: &str, seed: u64, thorough: bool) -> Case {
 
 /// The case a seed expands to for a property's default workload mix.
 pub fn gen(prop: &str, seed: u64, thorough: bool) -> Case {
+    let mut case = gen_inner(prop, seed, thorough);
+    if case.mode == Mode::Session && matches!(prop, "C14" | "C06" | "C18") {
+        // one session in five writes its FEN roots the short way (without the two move counters, or without the
+        // full-move number): `position fen <4 or 5 fields> moves ...` is what the engine's own `show` prints
+        let mut r = Rng::new(seed, 0xfe4);
+        if r.chance(1, 5) {
+            case.tags.push(format!("fenfields={}", r.range(4, 5)));
+        }
+    }
+    match case.mode {
+        Mode::Direct if !cfg!(feature = "direct") => direct_to_session(case),
+        Mode::Autoplay if !cfg!(feature = "selfplay") => {
+            let mut c = gen_session(prop, seed, 0, true);
+            c.family = format!("{} (instead of {}: self-play entry point not built)", c.family, case.family);
+            c
+        }
+        _ => case,
+    }
+}
+
+/// The same workload through the UCI front end, for a build in which the harness cannot call the search itself
+/// (an edit changed the entry point's signature beyond what the adapters bridge): one `position` + `go` per item, the
+/// stop index delivered by the GUI after that many polls, a sweep reduced to three of its stop indices, many-roots
+/// reduced to 200 walks, table-guided descent replaced by a seeded one-ply extension.
+pub fn direct_to_session(d: Case) -> Case {
+    let mut c = Case::new(&d.prop, &format!("{} (as a UCI session: direct entry point not built)", d.family), d.seed, Mode::Session);
+    c.params = d.params.clone();
+    c.params.search_on_main = false;
+    c.params.max_steps = c.params.max_steps.max(400_000);
+    c.tags = d.tags.clone();
+    let mut rng = Rng::new(d.seed, 0xd125);
+    let mut prev: (String, Vec<String>) = (String::new(), vec![]);
+    let pos_line = |root: &str, moves: &[String]| {
+        let r = if root == "startpos" || root.starts_with("fen ") { root.to_string() } else { format!("fen {}", root) };
+        if moves.is_empty() {
+            format!("position {}", r)
+        } else {
+            format!("position {} moves {}", r, moves.join(" "))
+        }
+    };
+    let one = |c: &mut Case, root: &str, moves: &[String], depth: Option<u8>, stop: Option<u64>, pre: bool| {
+        c.raw(pos_line(root, moves));
+        match (depth, stop, pre) {
+            (_, _, true) => {
+                c.raw(match depth {
+                    Some(n) => format!("go depth {}", n),
+                    None => "go infinite".to_string(),
+                });
+                c.raw("stop");
+            }
+            (Some(n), None, _) => c.raw(format!("go depth {}", n)),
+            (dd, st, _) => {
+                c.raw(match dd {
+                    Some(n) => format!("go depth {}", n),
+                    None => "go infinite".to_string(),
+                });
+                c.push(GK::AfterPolls(st.unwrap_or(2_000).min(20_000)));
+                c.raw("stop");
+            }
+        }
+        c.push(GK::AwaitBest);
+    };
+    c.raw("uci");
+    c.raw("isready");
+    c.push(GK::AwaitReady);
+    for it in &d.items {
+        if it.fresh {
+            c.raw("ucinewgame");
+        }
+        let (root, mut moves) = if it.descend.is_some() && !prev.0.is_empty() { (prev.0.clone(), prev.1.clone()) } else { (it.root.clone(), it.moves.clone()) };
+        if it.descend.is_some() {
+            let r = if root == "startpos" || root.starts_with("fen ") { root.clone() } else { format!("fen {}", root) };
+            moves = walk_from(&mut rng, &r, &moves, 1);
+        }
+        prev = (root.clone(), moves.clone());
+        if let Some(w) = &it.walks {
+            let r = if root == "startpos" || root.starts_with("fen ") { root.clone() } else { format!("fen {}", root) };
+            for _ in 0..w.n.min(200) {
+                let len = rng.range(1, w.max_len.max(1) as u64);
+                let line = walk_from(&mut rng, &r, &moves, len);
+                one(&mut c, &root, &line, it.depth, None, false);
+            }
+            continue;
+        }
+        if let Some(sw) = &it.sweep {
+            one(&mut c, &root, &moves, it.depth, None, true);
+            for k in [0, rng.below(sw.head.max(1) + 1), rng.below(400)] {
+                one(&mut c, &root, &moves, it.depth, Some(k), false);
+            }
+            continue;
+        }
+        one(&mut c, &root, &moves, it.depth, it.stop_at, it.pre_stopped);
+    }
+    c.raw("quit");
+    c
+}
+
+fn gen_inner(prop: &str, seed: u64, thorough: bool) -> Case {
     match prop {
         "C14" => {
             if seed % 16 == 15 {
